@@ -176,7 +176,7 @@ theorem redirection_error_at_any_depth (p : List Layer) (hp : ∀ l ∈ p, l.ok)
 theorem shell_error_ends_only_the_subshell (fuel : Nat) (s : St) (n : NCmd) (rest : List NCmd)
     (hstop : stopsShell (execN fuel (s.push .subshell) n).2 = true) :
     let x := execN fuel (s.push .subshell) n
-    let s1 : St := { s with status := (x.1.applyResult x.2).status, trace := x.1.trace }
+    let s1 : St := { s with status := (x.1.applyResult x.2).status, trace := x.1.trace, pending := x.1.pending }
     execN (fuel + 1) s (.sub (n :: rest)) = (s1, s1.applyErrexit) := by
   intro x s1
   have hx : execN fuel (s.push .subshell) n = x := rfl
@@ -293,13 +293,13 @@ theorem pipeline_two_stages (fuel : Nat) (s : St) (a b : NCmd)
     (ha : (execN (fuel + 2) (s.enterJc.push .subshell) a).2 ≠ .outOfFuel) :
     let xa := execN (fuel + 2) (s.enterJc.push .subshell) a
     let ca := xa.1.applyResult xa.2
-    let sa : St := { s.enterJc with trace := ca.trace }
+    let sa : St := { s.enterJc with trace := ca.trace, pending := ca.pending }
     let xb := execN (fuel + 1) (sa.push .subshell) b
     let cb := xb.1.applyResult xb.2
     xb.2 ≠ .outOfFuel →
     let st := if cb.status ≠ 0 ∨ !s.enterJc.pipefail then cb.status
               else if ca.status ≠ 0 ∨ !s.enterJc.pipefail then ca.status else 0
-    let out : St := s.leaveJc { s.enterJc with trace := cb.trace, status := st }
+    let out : St := s.leaveJc { s.enterJc with trace := cb.trace, pending := cb.pending, status := st }
     execN (fuel + 4) s (.pipe [a, b]) = (out, out.applyErrexit) := by
   intro xa ca sa xb cb hb st out
   have h0 : execN (fuel + 4) s (.pipe [a, b]) =
@@ -335,7 +335,9 @@ theorem async_list_cannot_end_the_shell (fuel : Nat) (s : St) (body : List NCmd)
     (execN (fuel + 1) s (.async body)).2 = .continue_ ∧
     (execN (fuel + 1) s (.async body)).1 =
       { s with status := 0, trace := ((execSeq (execN fuel) (s.push .subshell) body).1.applyResult
-                                        (execSeq (execN fuel) (s.push .subshell) body).2).trace } := by
+                                        (execSeq (execN fuel) (s.push .subshell) body).2).trace,
+               pending := ((execSeq (execN fuel) (s.push .subshell) body).1.applyResult
+                                        (execSeq (execN fuel) (s.push .subshell) body).2).pending } := by
   simp only [execN]
   cases hr : (execSeq (execN fuel) (s.push .subshell) body).2 with
   | outOfFuel => exact absurd hr h
@@ -518,5 +520,89 @@ example :
     (runShellN 20 {} (some [.cmds [p 99], .syntaxError, .cmds [p 98]]) [.cmds [.ctl (.st 0)]]).final.trace = [(99, 0)] ∧
     (runShellN 20 {} (some [.cmds [p 99], .syntaxError, .cmds [p 98]]) [.cmds [.ctl (.st 0)]]).final.status = 2 := by
   decide
+
+/-! ### ★ third pass: signal traps at command boundaries, `for v do`, `exec` that fails, unreadable main input -/
+
+/-- the command boundary is invisible when no trap action is due after the command -/
+theorem polled_without_due_trap_is_identity (fuel : Nat) (s : St) (c : NCmd)
+    (h : (execN fuel s c).1.trapDue = none) : execN (fuel + 1) s (.polled c) = execN fuel s c := by
+  simp only [execN, pollWith]
+  cases hr : (execN fuel s c).2 <;> simp [h, ← hr]
+
+/-- The round-3 seed's statement, for the boundary of ANY command (simple or compound, at whatever depth: the
+    state and its frame stack are arbitrary): when the command ends in a divert `d` (a shell error, errexit, `exit` …)
+    and a trapped signal was caught meanwhile, the action runs first — under a `Trap` frame, with the pending
+    flag cleared — and THEN the divert proceeds: if the action completes normally the result is `d` and `$?` is
+    the command's again; if the action diverts with `m` the more severe of the two (`Divert.max`) is followed. -/
+theorem trap_action_runs_then_abort_proceeds (fuel : Nat) (s : St) (c : NCmd) (d : Divert) (body : List Item)
+    (hd : (execN fuel s c).2 = .break_ d) (hdue : (execN fuel s c).1.trapDue = some body) :
+    let x := execN fuel s c
+    let t := execList fuel ({ x.1 with pending := false }.push .trap) body
+    execN (fuel + 1) s (.polled c) = finishPoll x.1.status t.1.pop (.break_ d) t.2 ∧
+    (t.2 = .continue_ →
+      (execN (fuel + 1) s (.polled c)).2 = .break_ d ∧ (execN (fuel + 1) s (.polled c)).1.status = x.1.status) ∧
+    (∀ m, t.2 = .break_ m → (execN (fuel + 1) s (.polled c)).2 = .break_ (d.max m)) := by
+  intro x t
+  have h0 : execN (fuel + 1) s (.polled c) = finishPoll x.1.status t.1.pop (.break_ d) t.2 := by
+    simp only [execN, pollWith, hd, hdue]
+    rfl
+  refine ⟨h0, fun ht => ?_, fun m hm => ?_⟩
+  · rw [h0, ht]; simp [finishPoll]
+  · rw [h0, hm]; cases m <;> simp [finishPoll]
+
+/-- `for v do …` is `for v in "$@"`: the loop over the positional parameters of the current context -/
+theorem for_over_positional_parameters (fuel : Nat) (s : St) (body : List NCmd) :
+    execN (fuel + 2) s (.forPos body) = execN (fuel + 2) s (.forLoop false false s.params body) := by
+  simp only [execN]
+  by_cases h1 : s.params = 0 ∧ (!body.isEmpty) = true
+  · simp [h1]
+  · by_cases h2 : s.params = 0
+    · simp only [h2] at h1 ⊢
+      simp [execForN, St.pop, St.push]
+    · simp [h2]
+
+/-- `exec no_such_command` (exec.rs): `$? = 127`; a non-interactive shell — and any subshell — is ABORTED
+    (`Divert::Abort`: not even the EXIT trap runs, `exit_trap_skipped_only_after_abort`); an interactive shell
+    goes on (then subject to errexit like any failing command). -/
+theorem exec_failure (fuel : Nat) (s : St) (i : Bool) (cs acs : Option Nat) :
+    execSimple fuel s (.mk (.ok cs) (.builtin .special (.execFail i)) .none (.ok acs)) =
+      ({ s with status := NOT_FOUND },
+       if i && !s.stack.contains .subshell then ({ s with status := NOT_FOUND } : St).applyErrexit
+       else .break_ (.abort none)) := by
+  simp only [execSimple, execTarget, execBody]
+  by_cases h : (i && !s.stack.contains .subshell) = true
+  · have h' : (i && !(s.push (.builtin (BuiltinType.special == .special))).stack.contains .subshell) = true := by
+      simpa [St.push] using h
+    simp only [h, h', if_true]
+    rfl
+  · have h' : ¬ (i && !(s.push (.builtin (BuiltinType.special == .special))).stack.contains .subshell) = true := by
+      simpa [St.push] using h
+    simp only [h, h']
+    rfl
+
+/-- the main input cannot be read (`yash <directory>`, driven in-process): the loop returns
+    `Interrupt(READ_ERROR)` — interactive or not, a read error is not recoverable — and the exit status is 128;
+    the EXIT action still runs (it is not an `Abort`) -/
+theorem read_error_of_main_input (fuel : Nat) (s : St) (action : Option (List Stmt)) :
+    (readErrorShell fuel s action).loopResult = .break_ (.interrupt (some READ_ERROR)) ∧
+    (readErrorShell fuel s action).pre = 128 ∧
+    (readErrorShell fuel s none).final.status = 128 ∧
+    (readErrorShell fuel s action).final = (runExitTrapSc fuel { s with status := READ_ERROR } action).1 := by
+  refine ⟨rfl, rfl, ?_, ?_⟩
+  · simp [readErrorShell, handleParserError, runExitTrapSc, St.applyResult, Divert.exitStatus, READ_ERROR]
+  · have : runsExitTrap (handleParserError false false) = true := by decide
+    simp only [readErrorShell, this, if_true]
+    rfl
+
+/-- `trap 'probe 97; exit 5' USR1; f` with `f() { st 0 $(kill -s USR1 $$) ${u?}; probe 1; }`: the action runs at the
+    boundary of the failing command inside the function, then of the error's `Interrupt(2)` and the action's
+    `Exit(5)` the more severe one ends the shell (hypotheses of `trap_action_runs_then_abort_proceeds`) -/
+example :
+    let s : St := { sigTrap := some [.mk (.mk false [.probe 97]) [], .mk (.mk false [.exit (some 5)]) []] }
+    let c : NCmd := .ctl .raiseErr
+    (execN 9 s c).2 = .break_ (.interrupt (some 2)) ∧ (execN 9 s c).1.trapDue.isSome = true ∧
+    (execN 12 s (.polled (.call [.polled c, .simple (probeSimple 1)]))).2 = .break_ (.exit (some 5)) ∧
+    (execN 12 s (.polled (.call [.polled c, .simple (probeSimple 1)]))).1.trace = [(97, 0)] := by
+  refine ⟨by decide, by decide, by decide, by decide⟩
 
 end YashModel.Errexit
